@@ -23,7 +23,7 @@ export VERIF_TIER=$TIER
 export VERIF_SEED=${VERIF_SEED:-1}
 EVDIR=${VF_EVIDENCE_DIR:-$ROOT/evidence}
 mkdir -p "$EVDIR" /var/tmp
-rm -f "$EVDIR/replay/$PROP-$TIER-"* 2>/dev/null
+rm -f "$EVDIR/replay/$PROP-$TIER-seed$VERIF_SEED-"* 2>/dev/null
 S=$(mktemp -d /var/tmp/vf-$PROP-XXXXXX)
 cleanup() { [ -n "${KEEP_SCRATCH:-}" ] || rm -rf "$S"; }
 trap cleanup EXIT
